@@ -45,7 +45,7 @@ def chunks(rng, ids, rs, small=False):
 
 def config(rng, plain_bias=0.6, rs=None, allow_pgp=True):
     cfg = {"rs": rs or rng.choice(RECORD_SIZES), "cache": rng.choice(CACHES), "level": "fastest",
-           "comp": "", "enc": "", "sig": ""}
+           "comp": "", "enc": "", "sig": "", "overwrite": rng.random() < 0.25}
     if rng.random() > plain_bias:
         cfg["comp"] = rng.choice(COMPRESSIONS)
         cfg["level"] = rng.choice(LEVELS)
